@@ -420,6 +420,8 @@ def one_image(rng, bits, tier):
             size += rng.choice([1, 2, 4, 7])
         elif q < 0.25:
             size = 0
+        elif q < 0.32:
+            size = rng.choice([4, 4, 1, 2, 6])                                  # shorter than the 8-byte WIN_CERTIFICATE header, flush with the end of the file
         blob = cert_blob(rng, size)
         decl_off, decl_size = off, size
         q = rng.random()
